@@ -192,6 +192,17 @@ func suiteConvertPlain(R *runner, r *rng) {
 // pairs for which the library's conversion of STYLED sources is not the conversion through the plain view, with the
 // reason (what the source reader sets that the destination writer emits)
 
+// Pairs whose conversion of STYLED sources is modelled exactly (coq/Model/Conv<S><F>.v, theorem C07_S_to_F_styled) by the
+// SubRip / WebVTT / SSA slice: the driver suite named here maps the source document (one byte string) to the destination
+// bytes (class 0 + bytes, class 1 = error, NS outside the faithful domain of the source reader's model).  Entries are added
+// by init() functions (harness/conv_ssa_vtt.go, conv_ttml_vtt.go, conv_ttml_ssa.go); an entry takes precedence over
+// plainStyledModels and plainStyledSkipPairs.  (plainStyledModels is the same idea with the source code in the input.)
+var styledConvSuites = map[string]string{}
+
+// optional oracle for such a pair: the destination bytes, read back by the library, must carry the text of the source
+// cues (returns "" or a description); C07: a conversion must not lose or alter text
+var styledConvOracle = map[string]func(src *astisub.Subtitles, dst []byte) string{}
+
 var plainStyledSkipPairs = map[string]string{
 	"srt->srt": "same format: the markup is kept (C01)",
 	"vtt->vtt": "same format: tags, settings, regions are kept (C02)",
@@ -200,12 +211,9 @@ var plainStyledSkipPairs = map[string]string{
 	"srt->stl": "the STL writer joins the runs of a line with a space; the plain view puts run texts together",
 	"vtt->stl": "the STL writer joins the runs of a line with a space",
 	"ssa->stl": "the STL writer joins the runs of a line with a space",
-	"vtt->ssa": "voice names travel as the Name column",
-	"ssa->vtt": "the speaker name travels as a voice tag",
-	// TTML sources are decoded through the XML parser model for hand-written documents (Kit/XmlParse2.v); ttml->srt is
-	// compared; the pairs below legitimately differ from the plain view:
-	"ttml->vtt":  "TTML regions (with their origin/extent mapped to WebVTT settings) and the cue's region travel to WebVTT",
-	"ttml->ssa":  "the TTML styles map is written as the SSA styles section",
+	// ssa->vtt, vtt->ssa, ttml->vtt, ttml->ssa are modelled exactly (styledConvSuites: Model/ConvSsaVtt.v, ConvVttSsa.v,
+	// ConvTtmlVtt.v, ConvTtmlSsa.v; C07_*_styled).  TTML sources are decoded through the XML parser model for hand-written
+	// documents (Kit/XmlParse2.v); ttml->srt is compared; the pairs below legitimately differ from the plain view:
 	"ttml->stl":  "the STL writer joins the runs of a line with a space, and the mapped language goes to the GSI block",
 	"ttml->ttml": "same format: styles, regions, references and inline attributes are kept (C03)",
 }
@@ -296,6 +304,31 @@ func suiteConvertPlainStyled(R *runner, r *rng) {
 			}
 			for _, dst := range plainCodecs {
 				pair := src.name + "->" + dst.name
+				if suite, ok := styledConvSuites[pair]; ok {
+					// the pair is modelled exactly (coq/Model/Conv<S><F>.v): destination bytes against convert_S_F
+					s2, _ := src.read(doc)
+					var out bytes.Buffer
+					o := &obs{Suite: suite, Group: "conv.styled." + pair, Input: (&enc{}).bytes(doc).String(), NT: true,
+						Human: map[string]interface{}{"source": src.name, "destination": dst.name, "document": string(doc)}}
+					R.count("conv.styled." + pair)
+					var werr error
+					p := safely(func() { werr = dst.write(s2, &out) })
+					switch {
+					case p != "":
+						o.Impl, o.Oracle, o.Sig = "2", fmt.Sprintf("%s -> %s panicked: %s", src.name, dst.name, p), "convstyled-panic"
+					case werr != nil:
+						o.Impl = "1"
+					default:
+						o.Impl = (&enc{}).n(0).bytes(out.Bytes()).String()
+						if styledConvOracle[pair] != nil {
+							if m := styledConvOracle[pair](s0, out.Bytes()); m != "" {
+								o.Oracle, o.Sig = pair+": "+m, "convstyled-text-"+pair
+							}
+						}
+					}
+					R.add(o)
+					continue
+				}
 				if suite, ok := plainStyledModels[pair]; ok {
 					// a model of what the destination writer sees of this source's cues exists: compare the bytes with it
 					s2, _ := src.read(doc)
